@@ -117,6 +117,13 @@ class Rule_CV07(BaseRule):
                 fixes.extend([LintFix.delete(segment) for segment in lift_nodes])
                 filtered_children = filtered_children[len(leading) : -len(trailing)]
 
+            if not filtered_children:
+                # Nothing but whitespace or comments inside the brackets
+                # (e.g. `( )`), so there is nothing to replace them with.
+                # Report it, but don't offer a fix.
+                results.append(LintResult(anchor=bracketed_segment))
+                continue
+
             fixes.append(
                 LintFix.replace(
                     bracketed_segment,
